@@ -331,6 +331,7 @@ func runBatch(bin, prop, tier string, seed uint64, faults bool, runs int, budget
 		go func(w int) {
 			defer wg.Done()
 			from := w
+			retried := map[int]bool{}
 			for attempt := 0; from < runs; attempt++ {
 				left := budget - time.Since(start)
 				if left <= 0 {
@@ -345,7 +346,8 @@ func runBatch(bin, prop, tier string, seed uint64, faults bool, runs int, budget
 				}
 				cmd := exec.Command(bin, args...)
 				cmd.Env = append(os.Environ(), "GOMAXPROCS=2", "TMPDIR="+scratch)
-				cmd.Stderr = io.Discard
+				stderrTail := &tailBuf{}
+				cmd.Stderr = stderrTail
 				cmd.Stdout = io.Discard
 				done := make(chan error, 1)
 				err := cmd.Start()
@@ -354,7 +356,7 @@ func runBatch(bin, prop, tier string, seed uint64, faults bool, runs int, budget
 					time.Sleep(time.Second)
 					cmd = exec.Command(bin, args...)
 					cmd.Env = append(os.Environ(), "GOMAXPROCS=2", "TMPDIR="+scratch)
-					cmd.Stderr = io.Discard
+					cmd.Stderr = stderrTail
 					cmd.Stdout = io.Discard
 					err = cmd.Start()
 				}
@@ -417,8 +419,21 @@ func runBatch(bin, prop, tier string, seed uint64, faults bool, runs int, budget
 					return
 				}
 				if code != 5 {
+					// the worker process itself died (a Go runtime fatal error or
+					// a panic outside the run's own goroutine). Once per run index
+					// the run is repeated in a fresh process before this counts as
+					// trouble: noted on stderr and in the evidence either way.
+					if r := last + nw; !retried[r] {
+						retried[r] = true
+						mu.Lock()
+						workerCrashRetries++
+						mu.Unlock()
+						fmt.Fprintf(os.Stderr, "check: worker %d exited with %v at run %d; repeating that run once in a fresh process; end of its stderr:\n%s\n", w, werr, r, stderrTail.String())
+						from = r
+						continue
+					}
 					mu.Lock()
-					b.errors = append(b.errors, fmt.Sprintf("worker %d exited with %v after run %d", w, werr, last))
+					b.errors = append(b.errors, fmt.Sprintf("worker %d exited with %v after run %d, twice; end of its stderr:\n%s", w, werr, last, stderrTail.String()))
 					mu.Unlock()
 				}
 				from = last + nw // skip the run that hung/crashed
@@ -431,6 +446,33 @@ func runBatch(bin, prop, tier string, seed uint64, faults bool, runs int, budget
 	wg.Wait()
 	sort.Slice(b.results, func(i, j int) bool { return b.results[i].Index < b.results[j].Index })
 	return b
+}
+
+// workerCrashRetries counts worker processes that died and whose run was
+// repeated (see runBatch); reported in the evidence.
+var workerCrashRetries int
+
+// tailBuf keeps the last few kilobytes written to it (a crashing worker's
+// stderr: the Go runtime's fatal error or panic message).
+type tailBuf struct {
+	mu sync.Mutex
+	b  []byte
+}
+
+func (t *tailBuf) Write(p []byte) (int, error) {
+	t.mu.Lock()
+	defer t.mu.Unlock()
+	t.b = append(t.b, p...)
+	if len(t.b) > 6000 {
+		t.b = t.b[len(t.b)-6000:]
+	}
+	return len(p), nil
+}
+
+func (t *tailBuf) String() string {
+	t.mu.Lock()
+	defer t.mu.Unlock()
+	return string(t.b)
 }
 
 func loadKnown() []knownFinding {
@@ -754,6 +796,7 @@ func main() {
 	}
 	cov := map[string]any{
 		"evaluations":               a.runs,
+		"worker_crashes_retried":    workerCrashRetries,
 		"distinct_nontrivial":       len(a.nontrivStates),
 		"rule":                      pc.Rule,
 		"samples":                   a.samples,
